@@ -109,10 +109,12 @@ SeenFlags(seen, h2, g2, x2) ==
              ELSE FALSE
       badW(e) == e[2] = "W" /\ ~(h2.vinit[e[1]] /\ x2.nd[e[1]] = 0 /\ ~g2.gone[e[1]])
                  /\ ~(e[3] = 0 /\ e[4] = 0)
+      \* a Weak handle names its allocation for as long as it exists (as_ptr identity), dead or not
+      badP(e) == e[2] = "W" /\ ~e[6]
   IN (IF \E j \in 1..Len(seen) : bad(seen[j]) THEN {"C06"} ELSE {})
-     \cup (IF \E j \in 1..Len(seen) : badW(seen[j]) THEN {"C05"} ELSE {})
+     \cup (IF \E j \in 1..Len(seen) : badW(seen[j]) \/ badP(seen[j]) THEN {"C05"} ELSE {})
 
-DropOps  == {"DropRoot", "DropStored", "DecStrong", "MakeMut", "MakeMutS"}      \* calls that drop a strong handle
+DropOps  == {"DropRoot", "DropStored", "DecStrong", "MakeMut", "MakeMutS", "MakeMutP"}      \* calls that drop a strong handle
 CloneOps == {"CloneRoot", "CloneStored"}
 
 MonStep ==
@@ -150,7 +152,7 @@ MonStep ==
                  c14 == IF ln.depth = 0 /\
                            \/ ln.op \in {"DropRoot", "DropStored", "DecStrong"} /\ ob.empty0
                               /\ (ln.cnt.ntrace1 > 0 \/ ln.cnt.nalloc1 > 0)
-                           \/ ln.op \in {"MakeMut", "MakeMutS"} /\ ob.empty0 /\ ln.cnt.ntrace1 > 0
+                           \/ ln.op \in {"MakeMut", "MakeMutS", "MakeMutP"} /\ ob.empty0 /\ ln.cnt.ntrace1 > 0
                            \/ ln.op \in CloneOps /\ (ln.cnt.ntrace > 0 \/ ln.cnt.nalloc > 0)
                         THEN {"C14"} ELSE {}
                  sf == IF ln.depth = 0 THEN SeenFlags(ln.seen, h2, g2, x1) ELSE {}
@@ -239,7 +241,7 @@ MonAccepted ==
 
 \* the allocation a make_mut in progress has created is registered by the harness only when
 \* the call returns: until then it is missing from the logged observations
-Unregistered(x, i, r) == /\ r.mem = "none" /\ x.call.op \in {"MakeMut", "MakeMutS"} /\ x.call.b = i
+Unregistered(x, i, r) == /\ r.mem = "none" /\ x.call.op \in {"MakeMut", "MakeMutS", "MakeMutP"} /\ x.call.b = i
 ObjMatches(h, x, i, r) ==
   /\ h.mem[i] = r.mem
   /\ r.mem = "alloc" =>
@@ -293,7 +295,7 @@ ConfStep ==
                    /\ AtTop
                    /\ HeapMatches(heap, ob, ln.obs)
                    /\ CallOp(ln.op, ln.a, ln.b, ln.d, TRUE, <<>>)
-                   /\ ln.op \in {"MakeMut", "MakeMutS"} /\ ob'.ub = {} /\ ctl'.mode = "run" => ob'.call.b = ln.b
+                   /\ ln.op \in {"MakeMut", "MakeMutS", "MakeMutP"} /\ ob'.ub = {} /\ ctl'.mode = "run" => ob'.call.b = ln.b
                 [] ln.k = "call" /\ ln.depth > 0 ->
                    /\ AtDtorPoint
                    /\ LET c == ScriptCall(led.dtor[Top.o]) IN c.op = ln.op /\ c.a = ln.a /\ c.b = ln.b
